@@ -11,6 +11,7 @@ from exo.API_cursors import InvalidCursor, lift_cursor
 import exo.API_cursors as PC
 
 from ..common import Violation, Skip, run_cases, guarded, rejection_types
+from ..gen.templates import programs_or_templates
 from ..gen.programs import programs, build, render_program
 from .. import sched
 from ..fingerprint import node_ids
@@ -77,6 +78,24 @@ def principal(n):
     return None
 
 
+def _shares_header(f, n):
+    def hdr(x):
+        if isinstance(x, LoopIR.If):
+            return [x.cond]
+        if isinstance(x, LoopIR.For):
+            return [x.lo, x.hi]
+        if isinstance(x, (LoopIR.Assign, LoopIR.Reduce)):
+            return list(x.idx) + [x.rhs]
+        if isinstance(x, (LoopIR.WindowStmt, LoopIR.WriteConfig)):
+            return [x.rhs]
+        if isinstance(x, LoopIR.Call):
+            return list(x.args)
+        return []
+
+    a, b = hdr(f), hdr(n)
+    return bool(a) and any(x is y for x in a for y in b)
+
+
 def blame(desc, ck, what):
     return {"op": desc["op"], "cursor": ck, "kind": what}
 
@@ -120,6 +139,12 @@ def check_stmt_forward(src: PRec, dst: PRec, site, desc, hist, stats):
         # the same statement OBJECT occurs several times in the source tree (e.g. main and
         # tail loop of divide_loop share untouched statements): identity is ambiguous
         stats["stmt-identity-ambiguous"] += 1
+        occ = []
+    if occ and len(Fs) == 1 and Fs[0] is not N and type(Fs[0]) is type(N) and _shares_header(Fs[0], N):
+        # the rewrite rebuilt the statement (same kind, same header expression objects: condition,
+        # bounds, right-hand side) and kept the old object in another role, e.g. lift_scope
+        # re-uses the lifted 'if' inside the branch it came from: the rebuilt one is the statement
+        stats["stmt-rebuilt-and-old-object-reused"] += 1
         occ = []
     if occ:
         if len(occ) == 1 and not any(f is N for f in Fs):
@@ -369,7 +394,7 @@ def check_case(case):
 
 def case_strategy(max_steps, names):
     step = st.tuples(st.sampled_from(names), st.integers(0, 40), st.integers(0, 23), st.integers(0, 47), st.integers(0, 13)).map(list)
-    return st.fixed_dictionaries({"prog": programs(max_stmts=10), "steps": st.lists(step, min_size=1, max_size=max_steps)})
+    return st.fixed_dictionaries({"prog": programs_or_templates(25, max_stmts=10), "steps": st.lists(step, min_size=1, max_size=max_steps)})
 
 
 def run(ctx):
@@ -387,4 +412,4 @@ def run(ctx):
             ctx.samples.append(info["sample"])
         return info
 
-    run_cases(ctx, case_strategy(6 if ctx.tier == "quick" else 12, names), guarded(ctx, chk), ctx.budget(1200, 40000))
+    run_cases(ctx, case_strategy(6 if ctx.tier == "quick" else 12, names), guarded(ctx, chk), ctx.budget(800, 40000))
